@@ -407,3 +407,108 @@ def _outcap_event(ev, env, ctx, inner, watched):
         e.ts['fresh'] = frozenset(x for x in env.ts.get('fresh', frozenset()) if tgt not in x and ('D:' + tgt) not in x)
         return [e]
     return inner(ev, env, ctx)
+
+
+def run_accum_guard(run, P, units=('coap_uri.c',)):
+    """R-LEN-READ (accumulator guard): a scanner that accumulates a number from digits -- `while (more input && V <= K1) V = V * 10 + digit` --
+    stops early when the value guard fails, with digits still unread.  The check that follows the loop has to reject every value the loop
+    can leave through its value guard, or the unread digits are silently dropped and a number that is out of range is accepted as a
+    smaller one: {v : not (v op1 K1)} is a subset of {v : v op2 K2} (two comparisons of one variable with constants: decided by evaluating
+    both at the boundary values).  The rejecting arm of the check is the one from which V is not read any more."""
+    from core.prog import strip, walk, ap, short, const_int, succs
+    from rules.r_sizefill import natural_loops
+    run.rule('R-LEN-READ')
+    OPS = {'<': lambda a, b: a < b, '<=': lambda a, b: a <= b, '>': lambda a, b: a > b, '>=': lambda a, b: a >= b, '==': lambda a, b: a == b, '!=': lambda a, b: a != b}
+    FLIP = {'<': '>', '<=': '>=', '>': '<', '>=': '<=', '==': '==', '!=': '!='}
+
+    def cmp_const(c):
+        c = strip(c)
+        if isinstance(c, dict) and c.get('k') == 'bin' and c.get('op') in OPS:
+            if ap(c['l']) and const_int(c['r']) is not None:
+                return ap(c['l']), c['op'], const_int(c['r'])
+            if ap(c['r']) and const_int(c['l']) is not None:
+                return ap(c['r']), FLIP[c['op']], const_int(c['l'])
+        return None
+    n = 0
+    for f in sorted(P.lib_funcs(), key=lambda f: f['name']):
+        if units and f['unit'] not in units:
+            continue
+        B = f['B']
+        try:
+            loops = natural_loops(f)
+        except KeyError:
+            continue
+        for h, body in sorted(loops.items()):
+            # guards of the loop: branch blocks inside the body with an edge out of the loop
+            for bid in sorted(body):
+                b = B[bid]
+                c = (b.get('term') or {}).get('cond')
+                if c is None or len(b['succ']) != 2 or b['succ'][0] not in body or b['succ'][1] in body:
+                    continue          # true arm stays inside, false arm leaves
+                cc = cmp_const(c)
+                if not cc or not cc[0].startswith('v'):
+                    continue
+                V, op1, K1 = cc
+                # V is accumulated inside the loop: assigned an expression that mentions V
+                acc = any(ev['e'].get('k') == 'asg' and ap(ev['e']['l']) == V and any(isinstance(x, dict) and ap(x) == V for x in walk(ev['e']['r']))
+                          for bb in body for ev in B[bb]['elems'])
+                if not acc:
+                    continue
+                # first comparison of V with a constant after the loop
+                work, seen, post = [b['succ'][1]], set(), None
+                while work and post is None:
+                    x = work.pop(0)
+                    if x in seen or x in body:
+                        continue
+                    seen.add(x)
+                    c2 = (B[x].get('term') or {}).get('cond')
+                    cc2 = cmp_const(c2) if c2 is not None else None
+                    if cc2 and cc2[0] == V and len(B[x]['succ']) == 2:
+                        post = (x, cc2)
+                        break
+                    if any(ev['e'].get('k') == 'asg' and ap(ev['e']['l']) == V for ev in B[x]['elems']):
+                        continue
+                    work.extend(succs(B[x]))
+                if post is None:
+                    continue
+                pb, (_v, op2, K2) = post
+
+                def reads_v(start):
+                    work, seen = [start], set()
+                    while work:
+                        x = work.pop()
+                        if x in seen or x is None:
+                            continue
+                        seen.add(x)
+                        for ev in B[x]['elems']:
+                            t = ev['e']
+                            rhs = [t.get('r')] if t.get('k') == 'asg' else [t]
+                            if any(isinstance(y, dict) and ap(y) == V for r in rhs for y in walk(r)):
+                                return True
+                            if t.get('k') == 'asg' and ap(t['l']) == V:
+                                break
+                        else:
+                            c3 = (B[x].get('term') or {}).get('cond')
+                            if c3 is not None and any(isinstance(y, dict) and ap(y) == V for y in walk(c3)):
+                                return True
+                            work.extend(succs(B[x]))
+                    return False
+                rt, rf = reads_v(B[pb]['succ'][0]), reads_v(B[pb]['succ'][1])
+                if rt == rf:
+                    continue          # cannot tell the rejecting arm: not judged
+                reject_when_true = not rt
+                n += 1
+                run.instance('R-LEN-READ', '%s: accumulator guard %s %s %d, range check %s %d' % (f['name'], [p for p in ('v',)][0], op1, K1, op2, K2))
+                cex = None
+                for v in sorted(set(k + d for k in (K1, K2) for d in (-2, -1, 0, 1, 2))):
+                    leaves = not OPS[op1](v, K1)
+                    rejected = OPS[op2](v, K2) == reject_when_true
+                    if leaves and not rejected:
+                        cex = v
+                        break
+                run.oblige('R-LEN-READ', cex is None, '%s:guard-exit-rejected' % f['name'])
+                if cex is not None:
+                    run.violation('R-LEN-READ', f['name'], b['term'].get('loc') or f['loc'], 'accumulator-guard-exit-accepted:%d' % cex,
+                                  'the digit loop stops when its value guard (%s %d) fails, which it does at the value %d with digits still unread, but the range check after the loop '
+                                  '(%s %d) lets %d through: the unread digits are dropped and an out-of-range number is accepted as %d' % (op1, K1, cex, op2, K2, cex, cex), [])
+    run.require(n >= 1 or run.fixture_mode, 'R-LEN-READ(accumulator guard): no guarded digit accumulation followed by a range check found in %s' % (units,))
